@@ -29,6 +29,7 @@
 #include "metrics.h"
 #include "state.h"
 #include "util.h"
+#include "verif_hooks.h"
 
 using namespace std;
 
@@ -487,6 +488,8 @@ bool DependencyScan::RecomputeNodeDirty(Node* node, std::vector<Node*>* stack,
     dirty = recomputeOutputsDirty.all(most_recent_input);
 
   if (!edge_deps_loaded) {
+    if (dirty)
+      VERIF_EVENT("DepsSkipped", edge, "");
     // only try to load the deps log if no rebuild is necessary
     // if an rebuild is necessary the deps log is outdated for this target
     if (!dirty) {
